@@ -437,26 +437,43 @@ def process_globals():
                 if not fn.endswith(".rs") or rel in ("src/sys/windows.rs", "src/bin/naija/toolchain.rs"):
                     continue
                 src = strip(read(rel))
-                # blank out items under the guards
+                # blank out the item (or field, statement, expression) each guard applies to: it ends at
+                # the first `;` or `,` outside brackets, at the end of its first `{...}` block, or where
+                # the enclosing block / list closes — whichever comes first
                 while True:
                     g = re.search(r"#\[cfg\((?:naijascript_verif|test|windows|target_os\s*=\s*\"\"[^\]]*)\)\]", src)
                     if not g:
                         break
-                    j = g.end()
-                    brace, semi = src.find("{", j), src.find(";", j)
-                    if brace >= 0 and (semi < 0 or brace < semi):
-                        k, depth = brace + 1, 1
-                        while k < len(src) and depth:
-                            depth += {"{": 1, "}": -1}.get(src[k], 0)
+                    k, depth = g.end(), 0
+                    while k < len(src):
+                        c = src[k]
+                        if c in "([":
+                            depth += 1
+                        elif c in ")]":
+                            if depth == 0:
+                                break
+                            depth -= 1
+                        elif c == "{" and depth == 0:
+                            d = 1
                             k += 1
-                    else:
-                        k = (semi + 1) if semi >= 0 else len(src)
+                            while k < len(src) and d:
+                                d += {"{": 1, "}": -1}.get(src[k], 0)
+                                k += 1
+                            break
+                        elif c == "}" and depth == 0:
+                            break
+                        elif c in ";," and depth == 0:
+                            k += 1
+                            break
+                        k += 1
                     src = src[:g.start()] + " " * (k - g.start()) + src[k:]
                 for m in re.finditer(r"\bstatic\s+(mut\s+)?(\w+)\s*:\s*([^=]+?)=", src):
                     if m.group(1) or re.search(GLOBAL_TYPES, m.group(3)):
                         found.add((rel, m.group(2)))
-                if "thread_local!" in src:
+                for m in re.finditer(r"\bthread_local!", src):     # at any nesting depth; its statics are listed above too
                     found.add((rel, "thread_local!"))
+                for m in re.finditer(r"\b(lazy_static!|static_init|once_cell::sync::Lazy)", src):
+                    found.add((rel, m.group(1)))
     except (TranslatorError, OSError):
         found.add(("?", "?"))
     return sorted(found)
